@@ -148,6 +148,7 @@ type Enc struct {
 	seqAbstract bool // relational mode: sequences are abstract ids, no content quantifiers
 	usesSeq    bool
 	splitOnCells bool // also case-split on branches that merge different values of local variables
+	lockTouched  map[string][]T // lock key -> indices (object references) locked or unlocked so far
 	defBody      map[string]string // macro name -> body (for recognising equal branch conditions)
 	splitSeen    map[string]bool
 	opaqueNames map[string]bool
@@ -339,7 +340,7 @@ func (e *Enc) getVar(st *State, key, sort string) T {
 		return t
 	}
 	e.keySorts[key] = sort
-	if _, hv := st.vars["*havoc*"]; hv && !e.immutableKey(key) && !strings.HasPrefix(key, "G|") {
+	if _, hv := st.vars["*havoc*"]; hv && !e.immutableKey(key) && !isGhostKey(key) {
 		// an unknown callee ran on this path before the variable was first
 		// touched: it is no longer at its entry version
 		t := e.freshT("hv_"+lastPart(key), sort)
@@ -352,6 +353,10 @@ func (e *Enc) getVar(st *State, key, sort string) T {
 	if _, ok := e.globals["decl:"+n]; !ok {
 		e.globals["decl:"+n] = Sc{t}
 		e.decls = append(e.decls, fmt.Sprintf("(declare-const %s %s)", n, sort))
+		if (strings.HasPrefix(key, "L|") || strings.HasPrefix(key, "R|")) && len(e.frames) > 0 && e.frames[0].con != nil && e.frames[0].con.Goroutine {
+			// a goroutine starts with no lock held
+			e.decls = append(e.decls, fmt.Sprintf("(assert (= %s ((as const %s) false)))", n, sort))
+		}
 	}
 	return t
 }
@@ -576,7 +581,7 @@ func (e *Enc) storeGlobal(g *ssa.Global, path []int, t types.Type, v Val) {
 // havocAll forgets every heap/memory variable (unknown callee).
 func (e *Enc) havocAll(why string) {
 	for k, t := range e.cur.vars {
-		if strings.HasPrefix(k, "G|") || t.Sort == "" || e.immutableKey(k) {
+		if isGhostKey(k) || t.Sort == "" || e.immutableKey(k) {
 			continue
 		}
 		e.cur.vars[k] = e.freshT("hv_"+lastPart(k), t.Sort)
@@ -586,7 +591,7 @@ func (e *Enc) havocAll(why string) {
 		}
 	}
 	for k, srt := range e.keySorts {
-		if _, ok := e.cur.vars[k]; !ok && !strings.HasPrefix(k, "G|") && !e.immutableKey(k) {
+		if _, ok := e.cur.vars[k]; !ok && !isGhostKey(k) && !e.immutableKey(k) {
 			e.cur.vars[k] = e.freshT("hv_"+lastPart(k), srt)
 		}
 	}
@@ -1144,6 +1149,7 @@ func (e *Enc) instr(f *frame, b *ssa.BasicBlock, in ssa.Instruction) {
 		if p.K == pHeap {
 			e.nilCheck(f, p, x.Pos())
 		}
+		e.guardCheck(p, x.Val.Type(), true, x.Pos())
 		e.storeTo(p, x.Val.Type(), e.val(x.Val))
 	case *ssa.UnOp:
 		f.vals[x] = e.unop(f, x)
@@ -1230,7 +1236,7 @@ func (e *Enc) instr(f *frame, b *ssa.BasicBlock, in ssa.Instruction) {
 	case *ssa.Send:
 		e.hookChanOp(f, "send", x.Chan, x.Pos())
 	case *ssa.Go:
-		e.abstract("go-statement")
+		e.spawn(f, x)
 	case *ssa.Defer:
 		f.defers = append(f.defers, deferInfo{call: x, reach: e.reach})
 	case *ssa.RunDefers:
@@ -1359,6 +1365,7 @@ func (e *Enc) unop(f *frame, x *ssa.UnOp) Val {
 		if p.K == pHeap {
 			e.nilCheck(f, p, x.Pos())
 		}
+		e.guardCheck(p, x.Type(), false, x.Pos())
 		v := e.load(p, x.Type())
 		if p.K == pHeap || p.K == pElem {
 			v = e.nameVal(v, x.Name())
@@ -1770,4 +1777,10 @@ func (e *Enc) expandDefs(s string, depth int) string {
 		i = j
 	}
 	return b.String()
+}
+
+// isGhostKey: ghost variables and the ghost lock state (lockset.go): no
+// unknown callee can write them.
+func isGhostKey(k string) bool {
+	return strings.HasPrefix(k, "G|") || strings.HasPrefix(k, "L|") || strings.HasPrefix(k, "R|")
 }
